@@ -106,6 +106,15 @@ REGISTRY["C14"] = {
             "Oracle: value/exception identity, context variables, #running <= tokens, token given back on every path, deferred cancellation, check_cancelled().",
     "note": "Trusted: z3, CrossHair, C Task/Future, VLoop stubs, the thread stub (function runs atomically at the chosen instant). NOT covered: real thread interleavings, from_thread.run/run_sync from inside the function, idle-worker pruning, uvloop, trio.",
 }
+REGISTRY["C15"] = {
+    "harnesses": ["symx.harness.c15_portal"],
+    "level": "model_checking",
+    "text": "PARTIAL (loop side only): bounded symbolic model checking of the real BlockingPortal code (_call_func and its cancel callback, _spawn_task_from_thread, start_task_soon, call, "
+            "start_task and its task_done callback, stop, __aexit__) on the virtual loop, the caller threads played by environment actions at symbolic instants; 1-3 calls with "
+            "callables from an 8-element alphabet, symbolic values, durations, future.cancel() and stop(cancel_remaining) instants. Oracle: exactly-once execution, value/exception "
+            "routing by identity, cancel affects precisely its task, refusal after stop, join on exit, start_task caller never left hanging.",
+    "note": "Trusted: z3, CrossHair, C Task/Future, VLoop stubs, the thread-boundary stubs listed in the evidence. NOT covered: blocking halves (Future.result(), start_blocking_portal thread join, _BlockingAsyncContextManager), real thread interleavings, uvloop, trio.",
+}
 
 NOT_APPLICABLE = {
     "C17": "TLS record framing/fragmentation/truncation happens inside OpenSSL (ssl.SSLObject/MemoryBIO, C code): no available engine can execute it symbolically, and a stub would make the check a statement about the stub (DESIGN.md section 3, C17).",
